@@ -456,6 +456,9 @@ pub enum Age {
     HugeSecs,
     /// nanos >= 10^9 (foreign)
     BadNanos,
+    /// one of four fixed fresh instants (whole seconds): many entries share an identical `last_seen`,
+    /// as in a file written in one go or by a coarse clock
+    FreshTie(u8),
 }
 
 #[derive(Clone, Debug, Serialize, Deserialize, PartialEq, Eq)]
@@ -537,6 +540,7 @@ pub fn render_planted(f: &PlantedFile, cfg: &Cfg, n_peers: usize, now: SystemTim
                 Age::Future(x) => (now_s + 60 + x as u64 * 10, 0),
                 Age::HugeSecs => (u64::MAX, 999_999_999),
                 Age::BadNanos => (now_s - 30, 4_000_000_000),
+                Age::FreshTie(k) => (now_s - 100 - 60 * (k % 4) as u64, 0),
             };
             list.push(json!({
                 "addr": text,
@@ -582,6 +586,7 @@ fn clean_age() -> BoxedStrategy<Age> {
         6 => any::<u16>().prop_map(Age::Fresh),
         3 => any::<u16>().prop_map(Age::Expired),
         1 => Just(Age::Epoch),
+        4 => (0u8..4).prop_map(Age::FreshTie),
     ]
     .boxed()
 }
@@ -649,6 +654,7 @@ pub fn dirty_file_strategy() -> BoxedStrategy<PlantedFile> {
         5 => any::<u16>().prop_map(Age::Fresh),
         2 => any::<u16>().prop_map(Age::Expired),
         1 => Just(Age::Epoch),
+        3 => (0u8..4).prop_map(Age::FreshTie),
         2 => any::<u16>().prop_map(Age::Future),
         1 => Just(Age::HugeSecs),
         1 => Just(Age::BadNanos),
